@@ -160,8 +160,9 @@ def build_native(ob, work):
 
 
 # --------------------------------------------------------------------------- cbmc
-def limit_child():
-    resource.setrlimit(resource.RLIMIT_AS, (MEM_LIMIT, MEM_LIMIT))
+def limit_child(mem=None):
+    lim = mem or MEM_LIMIT
+    resource.setrlimit(resource.RLIMIT_AS, (lim, lim))
     os.setsid()
 
 
@@ -197,7 +198,7 @@ def run_cbmc(ob, gb, work, timeout, trace=False):
     outpath = os.path.join(work, "cbmc.json")
     with open(outpath, "w") as out:
         env = dict(os.environ, PATH=os.path.join(ROOT, "tools", "shim") + ":" + os.environ.get("PATH", ""))
-        proc = subprocess.Popen(full, stdout=out, stderr=subprocess.PIPE, preexec_fn=limit_child, env=env)
+        proc = subprocess.Popen(full, stdout=out, stderr=subprocess.PIPE, preexec_fn=(lambda: limit_child(int(ob["mem_gb"]) * (1 << 30) if ob.get("mem_gb") else None)), env=env)
         try:
             _, err = proc.communicate(timeout=timeout)
             timed_out = False
@@ -472,6 +473,12 @@ def run_obligation(ob, tier, scratch, want_cex=True):
     if res["status"] == "timeout":
         rec["verdict"] = "not_discharged"
         rec["notes"].append("timeout after %ss" % timeout)
+        rec["wall_s"] = round(time.time() - t0, 2)
+        return rec
+    if res["status"] == "error" and "out of memory" in (res["error"] or "").lower():
+        # the memory budget is a solver budget like the time budget: no verdict, nothing claimed (never a success)
+        rec["verdict"] = "not_discharged"
+        rec["notes"].append("memory budget exceeded: " + (res["error"] or "").strip())
         rec["wall_s"] = round(time.time() - t0, 2)
         return rec
     if res["status"] == "error" or not res["results"]:
